@@ -358,6 +358,7 @@ func resetRuntime() {
 	PermuteMaps = false
 	ExploreSchedules = false
 	resetStubs()
+	resetVFS()
 }
 
 type ssaFunction = ssa.Function
